@@ -19,7 +19,7 @@ contract("artap.operators:PmMutator.pm_mutation", props=["C08"], options={"check
          locals={"x": "Real"},
          requires=["lb < ub", "lb <= x and x <= ub", "self.distribution_index >= 0"],
          ensures=["lb <= result and result <= ub"], modifies=[])
-contract("artap.operators:PmMutator.mutate", props=["C08", "C09"],
+contract("artap.operators:PmMutator.mutate", props=["C08", "C09"], options={"unused_params": ["current_iteration"]},
          types={"parent": "List[Real]", "result": "List[Real]"},      # current_iteration is unused (callers pass a vector or nothing)
          locals={"vector": "List[Real]"},
          requires=["pbox_wf(self.parameters)", "inbox(parent, self.parameters)", "self.distribution_index >= 0"],
